@@ -193,9 +193,9 @@ def judge_history(prop, case, res, reach, refs, what=("events", "obs", "warn"), 
                     reach.probe("r2-solve-compared")
                     if not O.num_close(o1["obj"], o2["obj"], O.R2_SOLVE_RTOL):
                         findings.append(_finding(prop, "vs-constants/solve/obj", rec, f"obj {o1['obj']!r} vs constants-model {o2['obj']!r}"))
-            elif "val" in o1 and "val" in o2:
-                # (an exception on either side is not compared: with Constants the simplifiers may
-                # legitimately remove a term -- 0 * x -- and with it a dependency the request lacks)
+            else:
+                # (requests that deliberately lack a variable carry no ref2: with Constants the
+                # simplifiers may legitimately remove the term -- 0 * x -- that needs it)
                 d = O.diff(o1, o2, "", rtol=1e-9)
                 if d:
                     findings.append(_finding(prop, f"vs-constants/{rec['op']}/{O.first_field(d) or 'obs'}", rec, d))
